@@ -322,6 +322,122 @@ fn premises(lang: &Lang, src: &str, toks: &[(u16, usize, usize)], skinds: &[u16]
     [e1, e2, cur == toks.len(), noeof, bounds, e4]
 }
 
+fn events_hash(events: &[Event]) -> u64 {
+    let mut h = Fnv::new();
+    for e in events {
+        match e {
+            Event::Start { kind, forward_parent: None } => {
+                h.byte(1);
+                h.u16(*kind as u16);
+            }
+            Event::Start { kind, forward_parent: Some(d) } => {
+                h.byte(2);
+                h.u16(*kind as u16);
+                h.u32(*d);
+            }
+            Event::Token { kind, n_tokens } => {
+                h.byte(3);
+                h.u16(*kind as u16);
+                h.u32(*n_tokens as u32);
+            }
+            Event::Finish => h.byte(4),
+            Event::Placeholder => h.byte(5),
+        }
+    }
+    h.0
+}
+
+fn ranges_hash(rs: &[(usize, usize, String)]) -> u64 {
+    let mut h = Fnv::new();
+    for (a, b, _) in rs {
+        h.u32(*a as u32);
+        h.u32(*b as u32);
+    }
+    h.0
+}
+
+/// Reconstruct a sequence of parser operations (`Parser::start` / `Marker::complete` /
+/// `CompletedMarker::precede` / `bump` / `error`) that yields exactly `events` and `errors` when run
+/// by the *model* of the parser infrastructure: every non-root `Start` becomes a marker (`s`, or
+/// `p<src>` when a forward parent of `src` points at it), its matching `Finish` a `c<pos>:<kind>`,
+/// every `Token` a `b`; each error is placed as early as possible (as soon as the token with its range
+/// is the current one, or at the end of input for `0..0`).  `None` = the stream does not have the
+/// shape any run of the real infrastructure produces.
+fn reconstruct_ops(lang: &Lang, toks: &[(u16, usize, usize)], events: &[Event], errors: &[(usize, usize, String)]) -> Option<(u16, Vec<String>)> {
+    let n = events.len();
+    let root = match (events.first(), events.last()) {
+        (Some(Event::Start { kind, forward_parent: None }), Some(Event::Finish)) if n >= 2 => *kind as u16,
+        _ => return None,
+    };
+    let mut src_of: std::collections::HashMap<usize, usize> = Default::default();
+    for (i, e) in events.iter().enumerate() {
+        if let Event::Start { forward_parent: Some(d), .. } = e {
+            let t = i + *d as usize;
+            if t >= n || src_of.insert(t, i).is_some() {
+                return None;
+            }
+        }
+    }
+    let mut ops: Vec<String> = Vec::new();
+    let mut stack: Vec<usize> = vec![0];
+    let mut cur = 0usize; // Source::cursor
+    let mut pending = errors.iter().map(|(a, b, _)| (*a, *b)).peekable();
+    let current_range = |cur: usize| -> (usize, usize) {
+        let mut c = cur;
+        while c < toks.len() && lang.is_trivia(toks[c].0) {
+            c += 1;
+        }
+        if c < toks.len() {
+            (toks[c].1, toks[c].2)
+        } else {
+            (0, 0)
+        }
+    };
+    for (i, e) in events.iter().enumerate().skip(1).take(n - 2) {
+        while pending.peek() == Some(&current_range(cur)) {
+            ops.push("e".into());
+            pending.next();
+        }
+        match e {
+            Event::Start { .. } => {
+                match src_of.get(&i) {
+                    Some(s) => ops.push(format!("p{s}")),
+                    None => ops.push("s".into()),
+                }
+                stack.push(i);
+            }
+            Event::Token { n_tokens: 1, .. } => {
+                ops.push("b".into());
+                while cur < toks.len() && lang.is_trivia(toks[cur].0) {
+                    cur += 1;
+                }
+                if cur < toks.len() {
+                    cur += 1;
+                }
+            }
+            Event::Finish => {
+                let m = stack.pop()?;
+                if m == 0 {
+                    return None;
+                }
+                match &events[m] {
+                    Event::Start { kind, .. } => ops.push(format!("c{m}:{}", *kind as u16)),
+                    _ => return None,
+                }
+            }
+            _ => return None,
+        }
+    }
+    while pending.peek() == Some(&current_range(cur)) {
+        ops.push("e".into());
+        pending.next();
+    }
+    if pending.peek().is_some() || stack != vec![0] {
+        return None;
+    }
+    Some((root, ops))
+}
+
 struct ParseObs {
     /// the leaf tokens of the tree in order: (SyntaxKind code, start, end)
     leaves: Vec<(u16, usize, usize)>,
@@ -563,6 +679,27 @@ pub fn run_case(n: u64, input: &CaseInput, lang: &Lang, out: &mut Out, dump: boo
         }
         if prem.iter().any(|b| !*b) {
             fails.push(format!("premise-monitor balanced,fp,consumed,noeof,boundaries,kinds={prem_s}"));
+        }
+        // the model of the parser infrastructure, run on operations reconstructed from the real stream,
+        // must reproduce the real events and error ranges; the operations must respect the Marker
+        // discipline and end at the end of input
+        if let Some(p) = &p1 {
+            match reconstruct_ops(lang, toks, events, &p.errors) {
+                Some((root, ops)) => {
+                    if model_ops {
+                        out.line(format!("pops {}", if ops.is_empty() { "-".to_string() } else { ops.join(" ") }));
+                        out.line(format!("parse {root}"));
+                        out.line(format!(
+                            "impl ok n={} ev={:016x} errs={:016x} disc=1 atend=1",
+                            events.len(),
+                            events_hash(events),
+                            ranges_hash(&p.errors)
+                        ));
+                    }
+                    out.add("parser_ops", ops.len() as u64);
+                }
+                None => fails.push("event/error stream is not reproducible by parser operations (marker discipline monitor)".into()),
+            }
         }
     } else if hook.is_none() {
         out.line("# parser (event hook) panicked");
